@@ -1,5 +1,10 @@
 """C13 - operators parse with the documented precedence and associativity.
 
+Round 3: SyltPrimary adds PRIMARY x POSTFIX x WRAP x CONTEXT (every kind of primary expression - literals, name, grouping,
+tuple, list, blob literal, fn literal, if- / case-expression - with every postfix form behind it, in every operand position
+and in every statement position), the same with a run-time meaning (value computed by the specification's environment
+machine, program run), and stacks of unary operators over int / float / variable operands, spaced and tight (`--2.5`), run.
+
 TLC enumerates the universes of SyltExpr (all depth-2 operator/postfix shapes over distinct leaf names,
 all 13^3 unparenthesised three-operator chains, all depth-2 well-typed int/bool trees with their value) and
 checks at spec level that the printing rules, the operator table and the reference precedence-climbing parser
@@ -28,6 +33,8 @@ def ops_in(t, acc):
 
 
 def signature(case, chk):
+    if "pk" in case:      # the keyed universes of SyltPrimary: kind of primary, postfix form, wrap, context
+        return "C13|%s|%s|pk=%s|px=%s|w=%s|cx=%s" % (chk["what"], case["u"], case["pk"], case["px"], case["w"].split(":")[0], case["cx"])
     t = case["t"]
     root = t.get("op", t.get("k"))
     kids = []
@@ -49,7 +56,7 @@ def run(ctx):
         import json
         cases = [json.load(open(ctx.replay))["replay"]["case"]]
     else:
-        r = vlib.tlc("MC_Expr", wd=wd, timeout=1500)
+        r = vlib.tlc("MC_Expr", wd=wd, timeout=1500, workers=4, env={"C13_ONLY": "all"})
         vlib.require_tlc_ok(r, "SyltExpr universe")
         cases = [p for (_, p) in r.records]
         seen = set()
@@ -62,6 +69,18 @@ def run(ctx):
         cases = uniq
         if r.coverage.get("Emit", (0, 0))[1] == 0 or len(cases) < 1000:
             vlib.tool_error("vacuity: universe too small (%d cases)" % len(cases))
+        per_u = {}
+        for c in cases:
+            per_u[c["u"]] = per_u.get(c["u"], 0) + 1
+        for u, least in (("shape", 5000), ("typed", 10000), ("chain", 2197), ("mlchain", 8000), ("longchain", 300), ("prime", 20),
+                         ("prim", 4000), ("pctx", 5000), ("ptyped", 1000), ("ustack", 800), ("ustk", 400)):
+            if per_u.get(u, 0) < least:
+                vlib.tool_error("vacuity: universe %s has %d cases (< %d)" % (u, per_u.get(u, 0), least))
+        # every kind of primary meets every postfix form at the start of a statement and after `ret`
+        met = {(c["pk"], c["px"], c["cx"]) for c in cases if c["u"] == "pctx"}
+        kinds = {c["pk"] for c in cases if c["u"] == "prim"}
+        if len(kinds) < 20 or any((k, px, cx) not in met for k in kinds for px in ("call", "idx", "fld") for cx in ("stmt", "ret", "ldef")):
+            vlib.tool_error("vacuity: primary x postfix x context is not fully crossed")
         ev.set(states=r.distinct, transitions=r.generated,
                spec_invariants=["RoundTrip", "TypedOk", "ChainRoot"], tlc_wall_s=round(r.wall_s, 1))
 
@@ -97,20 +116,31 @@ def run(ctx):
         bad = sum(1 for res in vlib.read_ndjson(nf) for chk in res["checks"] if not chk["ok"] and chk["what"].startswith("parse"))
         if bad == 0:
             vlib.tool_error("negative control accepted: operand-swapping parser not detected")
-        ev.set(negative_controls_rejected=bad)
+        # negative control for the run checks: a generator that writes the two minus signs of a double negation side by side
+        sub2 = [c for c in cases if c["u"] == "ustack" and c["px"].startswith("n2") and c["pk"] in ("float", "int", "ivar")][:120]
+        nc2 = os.path.join(wd, "neg2-cases.ndjson")
+        nf2 = os.path.join(wd, "neg2.ndjson")
+        vlib.write_ndjson(nc2, sub2)
+        vlib.harness("c13", ["replay", nc2, nf2], env={"C13_STUB": "comment"})
+        bad2 = sum(1 for res in vlib.read_ndjson(nf2) for chk in res["checks"] if not chk["ok"] and chk["what"].startswith("eval"))
+        if bad2 == 0:
+            vlib.tool_error("negative control accepted: `--` written into the emitted Lua not detected by the run checks")
+        ev.set(negative_controls_rejected=bad + bad2)
 
     by_u = {}
     for c in cases:
         by_u[c["u"]] = by_u.get(c["u"], 0) + 1
     ev.set(traces_validated_against_impl=len(results), evaluations=nchecks, distinct_nontrivial=len(cases),
            checks_by_kind=kinds, cases_by_universe=by_u, operator_pairs_covered=len(pairs), exhaustive=True,
-           rule="every tree of SyltExpr!Shapes2 (depth<=2 over 13 binary, 2 unary, 3 postfix forms, distinct leaf names) and Shapes3 (unary operators over postfix forms with composite bases, alone and as operands; postfix chains on composite bases), "
+           rule="SyltPrimary: every kind of primary expression (22: literals, name, parenthesised operator forms, tuples, list, blob literal, fn literals, if / elif / else-less if, case with / without binding, else) x postfix form (call, index, field access, prime call, 7 chains of two) x position in the expression (alone, either operand of each of the 13 binary operators, under both unary operators, argument, list / tuple element, blob field, if condition / branch, fn body) on the right of a definition, and x 10 statement positions (start of a statement: first / later / one-line body / if / else / loop body; right of := = +=; after ret); the same with run-time meaning in 5 ways of reaching print (value from the environment machine EvalE); stacks of 1-3 unary operators over 12 operands (int, float, variables, call, grouping, field, index, bools) x operand positions x spaced / tight spelling, run; mixed unary stacks (parse). Older universes: every tree of SyltExpr!Shapes2 (depth<=2 over 13 binary, 2 unary, 3 postfix forms, distinct leaf names) and Shapes3 (unary operators over postfix forms with composite bases, alone and as operands; postfix chains on composite bases), "
                 "every unparenthesised chain a op b op c op d, the same over literals on several lines inside parentheses, chains of 5-10 operands, unary before prime calls, every depth-2 well-typed int/bool tree; distinct by JSON hash; "
-                "each yields 2 parse checks (+2 run checks when typed)",
+                "each yields 2 parse checks (+1 whole-module comparison of the two spellings in the keyed universes, +2 run checks when typed)",
            samples=[{"min": " ".join(c["min"]), "full": " ".join(c["full"]), "u": c["u"]} for c in cases[:3] + cases[len(cases) // 2:len(cases) // 2 + 3]],
            known_findings_hit=verdicts.known_hits)
     ev.assume("the grouping of a unary operator directly beside * or / is not fixed by the property: always parenthesised",
-              "value checks need minilua (stand-in for Lua 5.3); division is excluded from evaluation (floats)")
+              "value checks need minilua (stand-in for Lua 5.3); division is excluded from evaluation; floats are multiples of 1/16 (exact)",
+              "a prime call `b' x` is written only where nothing of the expression follows it (it takes the rest of the line as arguments)",
+              "left out as statement grammar, not operator table: a blob literal or an else-less `if` directly in front of `else` on the same line")
     rc = verdicts.finish()
     ev.violations = len(verdicts.violations)
     ev.write()
